@@ -50,7 +50,7 @@ Definition other_ok (o : op) : bool :=
   end.
 
 Inductive fevent :=
-| EProbe (c a : N)                      (* coordinator c PINGs proxy a (no state change; the answer depends on fs_down and the network) *)
+| EProbe (c a : N) (ok : bool)          (* coordinator c PINGs proxy a and sees an answer (ok) or not; no state change *)
 | EReport (c a : N)                     (* add_failure(a, c) reaches the broker *)
 | EGetFailures (c : N)                  (* get_failures answered to c: a replace_proxy call for every listed address is on its way *)
 | EReplace (i : nat) (choice : option N) (* the i-th in-flight replace_proxy call reaches the broker *)
@@ -78,7 +78,7 @@ Definition with_net (st : fstate) (net : list N) : fstate :=
 
 Definition fstep (st : fstate) (ev : fevent) : fstate :=
   match ev with
-  | EProbe _ _ => st
+  | EProbe _ _ _ => st
   | EReport c a =>
     let '(s', b) := add_failure (fs_store st) a c (fs_clock st) in
     {| fs_store := s'; fs_clock := fs_clock st; fs_down := fs_down st; fs_net := fs_net st; fs_auth := fs_auth st;
@@ -140,10 +140,10 @@ Fixpoint probe_loop (tries : nat) (c a : N) (n : nat) (st : fstate) : list feven
   | O => ([], n, false, false)
   | S k =>
     match fc_fault sc n with
-    | Ctrl.FCrash => ([EProbe c a], S n, false, true)
+    | Ctrl.FCrash => ([EProbe c a false], S n, false, true)
     | f =>
-      if answered f && negb (nmem a (fs_down st)) then ([EProbe c a], S n, true, false)
-      else let '(e, n', alive, cr) := probe_loop k c a (S n) st in (EProbe c a :: e, n', alive, cr)
+      if answered f && negb (nmem a (fs_down st)) then ([EProbe c a true], S n, true, false)
+      else let '(e, n', alive, cr) := probe_loop k c a (S n) st in (EProbe c a false :: e, n', alive, cr)
     end
   end.
 
